@@ -17,7 +17,7 @@ pub fn check() -> Check {
     Check {
         property: "C03",
         level: "fault_enumeration",
-        rule: "encrypted messages built by the real builder (SEIPDv1 x 11 ciphers, SEIPDv2 x 3 AEAD x 3 AES x chunk 64 B..4 KiB; plaintext lengths around 0/1/2/3 chunk boundaries; fixed and partial outer framing; session-key and password openers) are damaged in the channel: EVERY single-bit flip of the SEIPD packet (header and body) for containers <= 300 bytes (sampled above), every value 0..255 of each parameter octet, truncation at every offset both raw and with the packet length repaired, bytes appended inside the container (random and copies of valid chunks), and for SEIPDv2 every drop / duplicate / swap / permutation of up to 4 chunks, the final tag dropped or duplicated. Each damaged message is read through Message (read_to_end, read loops, fill_buf/consume) and through packet::StreamDecryptor directly. Oracle: Err by the end of the read, never a clean end; default SEIPDv1 releases no plaintext byte; SEIPDv2 releases only a prefix of the true plaintext. Non-trivial: the fault changed at least one byte the reader consumed; distinct = distinct (message shape, mutation) pairs.",
+        rule: "encrypted messages built by the real builder (SEIPDv1 x 11 ciphers, SEIPDv2 x 3 AEAD x 3 AES x chunk 64 B..4 KiB; plaintext lengths around 0/1/2/3 chunk boundaries; fixed and partial outer framing; session-key and password openers) are damaged in the channel: EVERY single-bit flip of the SEIPD packet (header and body) for containers <= 300 bytes (sampled above), every value 0..255 of each parameter octet, truncation at every offset both raw and with the packet length repaired, bytes appended inside the container (random and copies of valid chunks), and for SEIPDv2 every drop / duplicate / swap / permutation of up to 4 chunks, the final tag dropped or duplicated (for longer containers the same at the head, middle and tail). One plan in eight has a payload of 8-40 KiB (several decryptor buffers); one in five carries, after the literal, a packet that readers skip (padding, marker, experimental tag - appended by the stub inside the plaintext and re-encrypted under the same session key), so that the damage may sit in chunks that hold nothing but skipped octets. Each damaged message is read through Message (read_to_end, read loops, fill_buf/consume) and through packet::StreamDecryptor directly. Oracle: Err by the end of the read, never a clean end; default SEIPDv1 releases no plaintext byte; SEIPDv2 releases only a prefix of the true plaintext. Non-trivial: the fault changed at least one byte the reader consumed; distinct = distinct (message shape, mutation) pairs.",
         families: vec![Family { name: "damage", gen: gen_damage, run: run_damage }],
         assumptions: vec!["20-byte MDC, AEAD tags are treated as unforgeable", "SEIPDv1 Streaming mode is only required to end in Err (documented to release unauthenticated bytes first)", "ESK packets are left alone here (C18)"],
         real: vec!["MessageBuilder encryption layers", "Message parser, SymEncryptedProtectedDataReader, crypto::sym::StreamDecryptor, crypto::aead::StreamDecryptor"],
@@ -43,14 +43,26 @@ fn gen_damage(ctx: &GenCtx) -> Vec<Value> {
             let lit = 2 + 6; // packet header + literal header with empty name
             let targets = [0usize, 1, csz - 1, csz, csz + 1, 2 * csz - 1, 2 * csz, 2 * csz + 1, 3 * csz + 7];
             let t = *p.pick(&targets);
-            let len = if p.chance(3, 4) { t.saturating_sub(lit) + p.below(2) * lit } else { p.range(0, 3 * csz) };
+            // (some payloads span several 8 KiB decryptor buffers: what is released early matters there)
+            let len = if p.chance(1, 8) { p.range(8193, 40_000) } else if p.chance(3, 4) { t.saturating_sub(lit) + p.below(2) * lit } else { p.range(0, 3 * csz) };
+            // packets a reader skips after the literal (padding, marker, experimental tags): the damage may
+            // then sit in chunks that carry nothing but skipped octets
+            let trailing = if p.chance(1, 5) {
+                match p.below(4) {
+                    0 => json!({"tag": 10, "len": 3}),
+                    1 => json!({"tag": 60 + p.below(4), "len": p.range(0, 4 * csz)}),
+                    _ => json!({"tag": 21, "len": *p.pick(&[1usize, csz, 2 * csz + 5, 5 * csz - 27, 303, 9000])}),
+                }
+            } else {
+                Value::Null
+            };
             let pw = p.chance(1, 4);
             let cfg = json!({"source": *p.pick(&["bytes","reader"]), "file_name":"", "data_mode":"binary", "partial": 512,
                 "compression": if p.chance(1,5) { "zip" } else { "none" }, "signers": [], "enc": enc, "recipients": [],
                 "passwords": if pw { json!([{"pw":"hunter2","s2k":{"k":"iterated","hash":"sha256","count":0}}]) } else { json!([]) },
                 "armor": false, "rng_key": p.u64()});
             json!({"cfg": cfg, "payload": {"gen":"random","len": len, "key": p.u64()}, "password": pw,
-                   "consumer": p.consumer(false).to_json(), "streaming": !v2 && p.chance(1,4), "lowlevel": p.chance(1,4), "pick": p.u64()})
+                   "consumer": p.consumer(false).to_json(), "streaming": !v2 && p.chance(1,4), "lowlevel": p.chance(1,4), "pick": p.u64(), "trailing": trailing})
         })
         .collect()
 }
@@ -184,6 +196,34 @@ fn run_damage(plan: &Value, rec: &mut Rec) {
     let v2 = jstr(&cfg["enc"], "k") == "v2";
     let csz = 64usize << cfg["enc"]["chunk"].as_u64().unwrap_or(0);
     let sk = workload::session_key(&info);
+    // a legal message whose plaintext continues after the literal with a packet that readers skip:
+    // the stub decrypts the container, appends the packet and encrypts again under the same session key
+    let (stream, pk) = if plan.get("trailing").map(|t| !t.is_null()).unwrap_or(false) {
+        let t = &plan["trailing"];
+        let tag = jusize(t, "tag") as u8;
+        let body: Vec<u8> = if tag == 10 { b"PGP".to_vec() } else { Planner::new(ju64(plan, "pick"), "trailing", 0).bytes(jusize(t, "len")) };
+        let rebuilt = (|| {
+            let (mut inner, end) = lowlevel_decrypt(&pk.body, &sk, &Consumer::ReadToEnd)?;
+            end.ok()?;
+            inner.extend_from_slice(&frame(tag, &body, &LenForm::NewMinimal)?);
+            let seipd = crate::checks::c04::encrypt_inner(&inner, cfg, sk.as_ref()?, ju64(cfg, "rng_key") / 3 * 3 + 1)?;
+            let s = [&stream[..pk.start], &seipd[..]].concat();
+            let pk = deframe(&s).ok()?.last().cloned()?;
+            Some((s, pk))
+        })();
+        match rebuilt {
+            Some(x) => {
+                rec.count(&format!("probe:trailing-skipped-packet-tag-{tag}"));
+                x
+            }
+            None => {
+                rec.count("skip:trailing-rebuild");
+                return;
+            }
+        }
+    } else {
+        (stream, pk)
+    };
     let consumer = Consumer::from_json(&plan["consumer"]);
     let streaming = jbool(plan, "streaming");
     let lowlevel = jbool(plan, "lowlevel");
@@ -283,6 +323,32 @@ fn run_damage(plan: &Value, rec: &mut Rec) {
                     }
                 }
                 let ident: Vec<usize> = (0..nunits).collect();
+                muts.push(json!({"m":"unit","perm":ident,"tag":"drop"}));
+                muts.push(json!({"m":"unit","perm":ident,"tag":"dup"}));
+            } else if nunits <= 200 {
+                // many chunks: drop / duplicate / swap at the tail, in the middle and at the head
+                let ident: Vec<usize> = (0..nunits).collect();
+                let mut perms: Vec<Vec<usize>> = Vec::new();
+                for k in 1..=3 {
+                    perms.push(ident[..nunits - k].to_vec());
+                    perms.push(ident[k..].to_vec());
+                }
+                for at in [0, nunits / 2, nunits - 2] {
+                    let mut v = ident.clone();
+                    v.swap(at, at + 1);
+                    perms.push(v);
+                    let mut v = ident.clone();
+                    v.insert(at, at);
+                    perms.push(v);
+                    let mut v = ident.clone();
+                    v.remove(at);
+                    perms.push(v);
+                }
+                for perm in perms {
+                    for tag in ["keep", "drop"] {
+                        muts.push(json!({"m":"unit","perm":perm,"tag":tag}));
+                    }
+                }
                 muts.push(json!({"m":"unit","perm":ident,"tag":"drop"}));
                 muts.push(json!({"m":"unit","perm":ident,"tag":"dup"}));
             }
